@@ -351,6 +351,25 @@ def install(ip):
     return tot
 
   def _fold(ip, v, is_any):
+    if isinstance(v, SymSeq):
+      # any / all over a sequence of symbolic length (typically a generator expression over one,
+      # evaluated as a pure map): a bounded quantifier over the index
+      i = z3.Int('i?')
+      n = v.length()
+      mo = getattr(v, 'map_of', None)
+      if mo is not None and mo[1].eq(i):
+        elem = mo[2]
+        n = mo[0].length()
+      else:
+        elem = v.ty.dec(v.term[i])
+      mark = len(ip.ctx.pc)
+      t = ip.truth(elem)
+      if len(ip.ctx.pc) != mark:
+        raise EngineError("any()/all(): element truth value is not pure")
+      if isinstance(t, bool):
+        t = z3.BoolVal(t)
+      rng = z3.And(0 <= i, i < n)
+      return z3.Exists([i], z3.And(rng, t)) if is_any else z3.ForAll([i], z3.Implies(rng, t))
     parts = []
     for x in ip.iter_concrete(v):
       t = ip.truth(x)
